@@ -163,6 +163,19 @@ theorem phi_independent_exact (q : Quad) (C : ℝ) (hw : (q.map Prod.snd).sum = 
     xsintphi (glquad q) none (fun _ => C) = .ok (2 * π * C) :=
   ⟨harm_const q C hw, xsintphi_const q C hw⟩
 
+/-- the same without any hypothesis on the weights (as floats the weights of the 10-point rule sum to 2 − 8·10⁻¹⁷, not
+    to 2, so the statement above is about the exact rule): a φ-independent cross section comes back multiplied by
+    Σw/2  (statement from the independent audit) -/
+theorem phi_independent_general (q : Quad) (C : ℝ) :
+    phiharmonic (glquad q) (.ftn 0) (fun _ => C) = .ok (C * (q.map Prod.snd).sum / 2) := by
+  have h1 : ¬ ((0:ℝ) < 0) := lt_irrefl _
+  have h2 : (0:ℝ) ≤ 0 ∧ (0:ℝ) ≤ 0 := ⟨le_refl _, le_refl _⟩
+  have hpi : π ≠ 0 := Real.pi_ne_zero
+  simp only [phiharmonic, if_neg h1, gt_iff_lt, if_pos h2, glquad, Harm.foldl_const, kpi]
+  congr 1
+  field_simp
+  ring
+
 /-- non-vacuity: the 2-point Gauss–Legendre rule has weights 1, 1 -/
 example : (([((-1:ℝ) / 3, (1:ℝ)), (1 / 3, 1)] : Quad).map Prod.snd).sum = 2 := by norm_num
 
@@ -187,6 +200,36 @@ theorem flux_identity_exact (c : Consts) (m : CFFs) (pt : Pt)
   have h := flux_hotfixed c m pt hlit heps hy he hD hx hx1 hx2 hQ
   obtain ⟨h1, h2⟩ := TDVCS2unp_BM10_vecOnly c m pt
   exact ⟨h, by rw [h1]; exact h, by rw [h2]; exact h⟩
+
+/-- the flux identity WITHOUT the hypothesis on the literal: the constant 65.14079453579676 written into
+    `_XGAMMA_DVCS_t_Ex` cannot equal π α² GeV2nb exactly for the code's rational constants (π is irrational:
+    lean/Audit/C08_hlit.lean), so `flux_identity_exact` above is a statement about an idealised constant.  What holds
+    for every α ≠ 0 and GeV2nb is the identity with both constants carried along:
+        literal · (2π · PreFacSigma · TDVCS2unp)  =  (π α² GeV2nb) · (HandFlux · _XGAMMA_DVCS_t_Ex),
+    i.e. the two sides of the property differ by the factor literal/(π α² GeV2nb) = 1 + 3·10⁻¹⁶ (measured by the harness).
+    (statement and proof from the independent audit) -/
+theorem flux_identity_with_literal (c : Consts) (m : CFFs) (pt : Pt)
+    (ha : c.alpha ≠ 0)
+    (heps : pt.eps2 = 4 * pt.xB ^ 2 * c.Mp2 / pt.Q2)
+    (hy : pt.y ≠ 0) (he : 0 < 1 + pt.eps2)
+    (hD : 1 - pt.y + pt.y ^ 2 / 2 + pt.eps2 * pt.y ^ 2 / 4 ≠ 0)
+    (hx : pt.xB ≠ 0) (hx1 : 1 - pt.xB ≠ 0) (hx2 : 2 - pt.xB ≠ 0) (hQ : pt.Q2 ≠ 0) :
+    (65.14079453579676 : ℝ) * (2 * π * DVCS.PreFacSigma c (vecOnly m) pt * FS_hotfixedBMK_TDVCS2unp c (vecOnly m) pt) =
+      (π * c.alpha ^ 2 * c.GeV2nb) * (HandFlux c pt * DVCS._XGAMMA_DVCS_t_Ex c (vecOnly m) pt) := by
+  have hpi : π ≠ 0 := Real.pi_ne_zero
+  let c' : Consts := { c with GeV2nb := 65.14079453579676 / (π * c.alpha ^ 2) }
+  have hlit : (65.14079453579676 : ℝ) = π * c'.alpha ^ 2 * c'.GeV2nb := by
+    show (65.14079453579676 : ℝ) = π * c.alpha ^ 2 * (65.14079453579676 / (π * c.alpha ^ 2))
+    field_simp
+  have h := flux_hotfixed c' m pt hlit heps hy he hD hx hx1 hx2 hQ
+  have e1 : FS_hotfixedBMK_TDVCS2unp c' (vecOnly m) pt = FS_hotfixedBMK_TDVCS2unp c (vecOnly m) pt := rfl
+  have e2 : HandFlux c' pt = HandFlux c pt := rfl
+  have e3 : DVCS._XGAMMA_DVCS_t_Ex c' (vecOnly m) pt = DVCS._XGAMMA_DVCS_t_Ex c (vecOnly m) pt := rfl
+  rw [e1, e2, e3] at h
+  rw [← h, PreFacSigma_eq, PreFacSigma_eq]
+  show _ = π * c.alpha ^ 2 * c.GeV2nb * (2 * π * (c.alpha ^ 3 * pt.xB * pt.y ^ 2 / (8 * π * pt.Q2 ^ 2 * ksqrt (1 + pt.eps2)) * (65.14079453579676 / (π * c.alpha ^ 2))) * _)
+  field_simp
+
 
 /-- … and so does XSintphi as the code computes it (any rule with Σ weights = 2) for pure DVCS: the
     integrand PreFacSigma·TDVCS2unp does not depend on φ -/
